@@ -120,11 +120,20 @@ def _collapse(s):
 _KINDS = ("fn", "struct", "enum", "trait", "mod", "const", "static", "type", "union")
 
 
+def _safe_fullmatch(pat, s):
+    try:
+        return re.fullmatch(pat, s) is not None
+    except re.error:
+        return False
+
+
 def find_in_scope(src, masked, start, end, spec):
     """Locate item `spec` ("fn name", "impl <header>", "enum Name", ...) among the
     items directly inside [start,end).  Returns dict(attr_start, sig_start,
     body_open, end) with `end` exclusive (after the closing brace or `;`)."""
     kind, _, name = spec.partition(" ")
+    if spec.startswith("impl"):
+        kind = "impl"
     depth = 0
     k = start
     cands = []
@@ -172,7 +181,7 @@ def find_in_scope(src, masked, start, end, spec):
             item_end = match_brace(masked, body_open) + 1
         if kind == "impl":
             want = _collapse(spec)
-            if hdr != want and not re.fullmatch(want, hdr):
+            if hdr != want and not _safe_fullmatch(want, hdr):
                 # allow where-clauses / generics to be omitted when spec is regex
                 continue
         found.append((kw, body_open, item_end))
@@ -455,6 +464,8 @@ def extract_item(repo, item, log):
     kind = item["path"][-1].split(" ")[0]
     if kind == "fn":
         text = splice_fn(text, item, log)
+    if item.get("prefix"):
+        text = item["prefix"] + text
     wrap = item.get("wrap")
     if wrap:
         text = "%s {\n%s\n}" % (wrap, text)
